@@ -26,12 +26,17 @@ A = 4
 
 class IdModel(torch.nn.Module):
     """Output = flattened input and args (exact); n_out in 1..3 selects tensor / tuple / list."""
-    def __init__(self, n_out):
+    def __init__(self, n_out, double=False):
         super().__init__()
         self.n_out = n_out
+        self.double_ = double
 
     def forward(self, X, *args):
-        y = torch.cat([X.float().flatten(1)] + [a.float().flatten(1) for a in args], dim=1)
+        if self.double_:
+            # args are used in the precision they arrive in (float64 fractions / int64 values beyond 2^24 survive only if nobody re-types them)
+            y = torch.cat([X.double().flatten(1)] + [a.double().flatten(1) for a in args], dim=1)
+        else:
+            y = torch.cat([X.float().flatten(1)] + [a.float().flatten(1) for a in args], dim=1)
         if self.n_out == 1:
             return y
         if self.n_out == 2:
@@ -104,8 +109,8 @@ def _cmp(rec, sig, case, got, exp):
         if tuple(got[k].shape) != tuple(exp[k].shape):
             rec.violation(sig + ":shape", dict(case, output=k), expected=list(exp[k].shape), observed=list(got[k].shape))
             return False
-        if not torch.equal(got[k].float(), exp[k].float()):
-            idx = (got[k].float() != exp[k].float()).nonzero()[0].tolist()
+        if not torch.equal(got[k].double(), exp[k].double()):
+            idx = (got[k].double() != exp[k].double()).nonzero()[0].tolist()
             rec.violation(sig + ":value", dict(case, output=k, index=idx[:3]), expected=exp[k][tuple(idx[:-1])][:12],
                           observed=got[k][tuple(idx[:-1])][:12])
             return False
@@ -240,6 +245,9 @@ def _annotation_sets(B, L, tier):
     sets.append([(0, 0, L - 1)])
     if tier == "quick":
         sets = sets[::2]
+    # example indices counted from the end (Python semantics): either the documented result for that example or a loud refusal
+    sets.append([(-1, 0, 2)])
+    sets.append([(-B, 1, 3), (0, 0, 2)])
     return sets
 
 
@@ -261,11 +269,14 @@ def run_marg_annot(rec, sh, tier, seed):
                     rec.case(1, int(len(ann) >= 2))
                     kind = "multi_output" if n_out > 1 else "single_output"
                     if st != "ok":
+                        if any(r[0] < 0 for r in ann):
+                            rec.count("refused_negative_example_index")
+                            continue
                         rec.violation("marginalize_annotations:raises:" + kind, case, observed=val)
                         continue
                     eb, ea = [], []
                     for (i, s, e) in ann:
-                        Xp = substitute(X0, X[i:i + 1, :, s:e])
+                        Xp = substitute(X0, X[[i]][:, :, s:e])
                         eb.append(_stack([[o[0] for o in _pred1(model, X0[j:j + 1], [a[j:j + 1] for a in args] if args else None)] for j in range(B0)]))
                         ea.append(_stack([[o[0] for o in _pred1(model, Xp[j:j + 1], [a[j:j + 1] for a in args] if args else None)] for j in range(B0)]))
                     eb, ea = _stack(eb), _stack(ea)
@@ -290,12 +301,15 @@ def run_abl_annot(rec, sh, tier, seed):
                     rec.case(1, int(len(ann) >= 2))
                     kind = "multi_output" if n_out > 1 else "single_output"
                     if st != "ok":
+                        if any(r[0] < 0 for r in ann):
+                            rec.count("refused_negative_example_index")
+                            continue
                         rec.violation("ablate_annotations:raises:" + kind, case, observed=val)
                         continue
                     eb, ea = [], []
                     for (i, s, e) in ann:
-                        Xs = shuffle(X[i:i + 1], start=s, end=e, n=n, random_state=rs)
-                        eb.append(_stack([[o[0] for o in _pred1(model, X[i:i + 1], None)]]))
+                        Xs = shuffle(X[[i]], start=s, end=e, n=n, random_state=rs)
+                        eb.append(_stack([[o[0] for o in _pred1(model, X[[i]], None)]]))
                         ea.append(_stack([_stack([[o[0] for o in _pred1(model, Xs[0, j:j + 1], None)] for j in range(n)])]))
                     eb, ea = _stack(eb), _stack(ea)
                     if _cmp(rec, "ablate_annotations:before:" + kind, case, _aslist(val[0]), eb) and \
@@ -317,14 +331,19 @@ def run_apply(rec, sh, tier, seed, which):
             confs = [(m, m) for m in sizes] + [(m,) for m in sizes]
         else:
             confs = [(m0, m1) for m0 in sizes for m1 in sizes] + [(m,) for m in sizes] + [(2, 3, 2)]
-        for conf in confs:
+        for conf, adt in [(c, "float32") for c in confs] + [(c, d) for c in confs[-2:] for d in ("float64", "int64")]:
             args = [_args(m, 1, off=100 * j)[0] for j, m in enumerate(conf)]
+            model = IdModel(n_out, double=adt != "float32")
+            if adt == "float64":
+                args = [a.double() + 0.1 for a in args]                       # not representable in float32
+            elif adt == "int64":
+                args = [a.long() + (1 << 24) + 1 for a in args]               # odd values beyond 2^24
             total = B * (conf[0] if which == "pairwise" else int(numpy.prod(conf)))
             for bs in sorted(set([1, 2, 3, 5, total - 1, total, total + 1, 32])):
-                if bs < 1:
+                if bs < 1 or (adt != "float32" and bs not in (2, total)):
                     continue
                 for fname in ("predict", "marginalize"):
-                    case = dict(w="apply_" + which, B=B, L=L, n_out=n_out, arg_sizes=conf, batch_size=bs, func=fname)
+                    case = dict(w="apply_" + which, B=B, L=L, n_out=n_out, arg_sizes=conf, batch_size=bs, func=fname, arg_dtype=adt)
                     if fname == "predict":
                         func, fkw = predict, {}
                         def one(x, a):
